@@ -21,9 +21,11 @@ ASSUMPTIONS = ["float-typed leaves are generated representable in the target wid
                "logical types: unknown logicalType annotations only (the logical-type clause of the statement is C16's)",
                "a field default is data like any other: an absent field is accepted when its default conforms (bytes/fixed defaults given as "
                "JSON strings do not: DESIGN O1, validate answers False and the writer raises -- consistent, observation only)"]
-PARTIAL = ["C10_writer_accepts (validate accepts => the writer encodes) is refuted at full strength (C10_writer_accepts_refuted: F9, a foreign "
-           "exception during the branch search, the strict writer, float overflow); proved: C10_writer_accepts_partial for the default writer under "
-           "the side condition wdom (floats convert, absent default-less fields spelled nullable, the validator answers on every branch searched)",
+PARTIAL = ["C10_writer_accepts (validate accepts => the writer encodes) is refuted at full strength (C10_writer_accepts_refuted: a '-type' entry naming no "
+           "record branch while a map branch fits, a foreign exception during the branch search, the strict writer, float overflow); proved: "
+           "C10_writer_accepts_partial for the default writer under the side condition wdom (floats convert, absent default-less fields accept null "
+           "the way _accepts_null tests it -- implied by validate for parse_schema's schemas: C10_absent_field_agrees --, the validator answers on "
+           "every branch searched, a '-type' entry names every branch the datum validates against)",
            "elab_typed's float side condition floats_ok (range of d2s/z2d outputs, rests on SpecFloat.binary_round) is evaluated in-model on every "
            "accepted case, not proved",
            "C10_gate is stated for the model's Writer.write (validation precedes encoding); that no byte reaches the stream is checked on the "
@@ -162,7 +164,8 @@ def check_writer(ctx, c, m, parts, stats, good):
                 stats["float_range_excluded"] += 1
                 return
             feat = "absent-field-null-not-spelled" if f9_shape(c.datum, c.parsed, c.named, tn) else (
-                "tuple-arity-in-a-later-branch" if kind == "tuple-arity" else "other")
+                "tuple-arity-in-a-later-branch" if kind == "tuple-arity" else (
+                    "type-hint-names-no-record-branch" if (w[1] == "ValueError" and not U.writable_x(c.datum, c.parsed, c.named, tn)) else "other"))
             ctx.violation("corr:validate-vs-writer", c.to_json(), impl="writer raised " + str(w[1]), model=mw[:300],
                           signature="C10:validate-vs-writer:accepted-writer-raises-%s:%s" % (w[1], feat), found_input=True,
                           detail="validate returned True but schemaless_writer raised; mutation=" + kind)
@@ -298,6 +301,9 @@ WITNESS_SCHEMAS = [
     # a validating record branch followed by a branch on which validation raises
     ([{"type": "record", "name": "A1", "fields": [{"name": "x", "type": {"type": "array", "items": "int"}}]},
       {"type": "map", "values": ["int", "string"]}], {"x": (1, 2, 3)}, "tuple-arity"),
+    # a '-type' entry naming no record branch while a map branch fits: validate accepts (as a map), the writer looks for record B
+    ([{"type": "record", "name": "A2", "fields": [{"name": "x", "type": "int"}]}, {"type": "map", "values": ["int", "string"]}],
+     {"x": 1, "-type": "B"}, "wrong-hint"),
     # O1 (observation): omitted bytes field whose default is a JSON string
     ({"type": "record", "name": "RO1", "fields": [{"name": "a", "type": "bytes", "default": "abc"}]}, {}, "missing-defaulted-field"),
 ]
